@@ -527,12 +527,13 @@ def worker(args):
     rng = random.Random(seed)
     out = {"n": 0, "finds": {}, "distinct": 0, "samples": []}
     signal.signal(signal.SIGALRM, _alarm)
+    signal.signal(signal.SIGPROF, _alarm)
     import resource
     resource.setrlimit(resource.RLIMIT_AS, (3 << 30, 3 << 30))
     for _ in range(ncases):
         r, signed, threshold, envs = c01.gen_case(rng, 4)
         out["n"] += 1
-        signal.alarm(20)
+        signal.setitimer(signal.ITIMER_PROF, 20)      # CPU time, not wall clock: load must not look like non-termination
         try:
             raw = rng.random() < 0.35
             o = width_case(cx, r, signed, threshold, rng, raw=raw)
@@ -541,7 +542,7 @@ def worker(args):
         except Exception as x:
             o = ("harness-error", repr(x))
         finally:
-            signal.alarm(0)
+            signal.setitimer(signal.ITIMER_PROF, 0)
         if o is not None and o[0] == "skip":
             continue
         if X.recipe_ops(r) >= 2:
